@@ -22,7 +22,7 @@ static uint64_t lg_c_str_calls, lg_c_str_ok, lg_c_mstr_calls, lg_c_mstr_ok;
 static uint64_t lg_c_parse_ok, lg_c_parse_fail, lg_c_rr_walked, lg_c_keys_walked, lg_c_write_ok, lg_c_write_fail;
 static uint64_t lg_c_legacy_calls, lg_c_legacy_ok, lg_c_legacy_nodata, lg_c_legacy_malformed, lg_c_alen_variants;
 static uint64_t lg_c_split_calls, lg_c_split_sections, lg_c_hexdump_calls, lg_c_ai_calls, lg_c_ai_ok;
-static uint64_t lg_c_entry_calls;
+static uint64_t lg_c_entry_calls, lg_c_write_oversize;
 static int      lg_last_ref_cls, lg_last_ref_nptr; /* reference verdict of the last lg_check_name_at() */
 
 static void lg_name_flush_counters(void);
@@ -41,6 +41,7 @@ static void lg_total_flush_counters(void)
   vh_count_n("rr_keys_walked", lg_c_keys_walked);
   vh_count_n("write_ok", lg_c_write_ok);
   vh_count_n("write_failed", lg_c_write_fail);
+  vh_count_n("write_longer_than_65535", lg_c_write_oversize);
   vh_count_n("legacy_calls", lg_c_legacy_calls);
   vh_count_n("legacy_success", lg_c_legacy_ok);
   vh_count_n("legacy_nodata", lg_c_legacy_nodata);
@@ -646,10 +647,13 @@ static void lg_check_parse(const uint8_t *data, size_t len, unsigned flags)
       LG_LEAVE();
       if (ws == ARES_SUCCESS) {
         lg_c_write_ok++;
-        if (wbuf == NULL || wbuf == (unsigned char *)LG_SENT || wlen == 0 || wlen > 65535) {
+        if (wbuf == NULL || wbuf == (unsigned char *)LG_SENT || wlen == 0) {
           lg_report("dns_write", "success-no-result", data, len, "buf %p len %zu", (void *)wbuf, wlen);
         } else {
           lg_touch(wbuf, wlen);
+          if (wlen > 65535) {
+            lg_c_write_oversize++; /* a matter for C03 (write/parse identity), only counted here */
+          }
         }
       } else {
         lg_c_write_fail++;
